@@ -149,6 +149,9 @@ func (o *Opts) Scalar() any {
 			case 0:
 				return time.Date(2002, 8, 15, 0, 0, 0, 0, time.UTC)
 			case 1:
+				if r.Bool() {
+					return uint64(18446744073709551557) // beyond int64: exact in both text forms
+				}
 				return 1 << 62
 			case 2:
 				return 1e21
@@ -357,7 +360,10 @@ func (o *Opts) Matrix() any {
 		case 1:
 			m.Set("setup", ordered.NewMap[string, any](0)) // explicitly empty, not absent
 		}
-		if r.Bool() {
+		if r.Intn(3) == 0 {
+			o.hist("matrix.degenerate-empty-adjustments")
+			m.Set("adjustments", []any{}) // present and empty, next to no / null / empty setup
+		} else if r.Bool() {
 			m.Set("adjustments", []any{ordered.MapFromItems(ordered.TupleSA{Key: "soft_fail", Value: true})})
 		} else if r.Bool() {
 			m.Set("adjustments", []any{ordered.MapFromItems(ordered.TupleSA{Key: "with", Value: ordered.NewMap[string, any](0)}, ordered.TupleSA{Key: "skip", Value: true})})
@@ -408,7 +414,8 @@ func (o *Opts) Matrix() any {
 				a.Set("skip", false)
 			}
 			if r.Intn(3) == 0 {
-				a.Set("soft_fail", core.Pick(r, []any{true, []any{ordered.MapFromItems(ordered.TupleSA{Key: "exit_status", Value: 1})}}))
+				a.Set("soft_fail", core.Pick(r, []any{true, []any{ordered.MapFromItems(ordered.TupleSA{Key: "exit_status", Value: 1})},
+					[]any{ordered.MapFromItems(ordered.TupleSA{Key: "signal_reason", Value: "agent_stop"}, ordered.TupleSA{Key: "exit_status", Value: 1})}}))
 			}
 			adjs = append(adjs, a)
 		}
